@@ -499,14 +499,8 @@ def attribute(spec, r, src):
     p = r.get("panic") or ""
     k = spec[0]
     crash = c in ("panic", "signal")
-    if k == "nat" and crash:
-        callee = spec[1]
-        m = callee.rsplit(".", 1)[-1]
-        if (m in ("zip", "chain", "isA?") or callee in ("List.collect", "Tuple.collect")) and ("Expected object." in p or c == "signal"):
-            return "KF-C16-objparam"
+    # KF-C16-objparam, -iterproto, -chancap and -exitcb were repaired (D39-D41): no guard, a recurrence is a violation
     if k == "sub" and (crash or c == "timeout"):
-        if spec[3] == "isA?" and "Expected object." in p:
-            return "KF-C16-objparam"
         return "KF-C16-subclass"
     if k == "prot":
         name = spec[1]
@@ -514,12 +508,6 @@ def attribute(spec, r, src):
             return "KF-C16-subclass"
         if name in ("str", "str_interp", "str_in_list", "str_in_map", "str_in_tuple", "err_init", "err_init_uncaught", "assert_str") and (crash or c == "timeout"):
             return "KF-C16-strproto"
-        if name == "iter_native_on_user" and crash:
-            return "KF-C16-iterproto"
-        if name == "chan_big" and crash:
-            return "KF-C16-chancap"
-        if name == "exit_in_callback" and "Accidental early exit" in p:
-            return "KF-C16-exitcb"
     if k == "err" and spec[1] in (22, 23) and crash:
         return "KF-C16-strproto"
     if k == "selfc" and c == "signal":
